@@ -30,6 +30,8 @@ func checkC15(c *Ctx, r *Report) {
 	r.rule("C15.R2.envelope-id", 2, "inAxfr and inIxfr compare the envelope's header ID with the query's")
 	envelopeIDCheck(c, r, "C15.R2.envelope-id")
 	tsigStubKept(c, r, "C15.R4.stub-kept", "after the first transfer the query has silently lost its TSIG; the next refresh with the same query goes out unsigned and an untampered, correctly keyed transfer fails with ErrNoSig (or is refused by the primary)")
+	c15ReceiveBounds(c, r, "C15.R5.receive-bounds")
+	secretFromProvider(c, r, "C15.R4.secret-from-provider", "a Transfer configured with one secret for a key name accepts envelopes signed with the secret another provider had for that name, and refuses correctly keyed ones")
 }
 
 // backEdges: edges u->h where h dominates u.
